@@ -37,8 +37,8 @@ def classify(r, clause):
         if empty and r["bsh"] > 0:
             return clause + ":column-without-originating-cell"
         total = sum(c["w"] for c in r["cols"]) + (0 if r["collapse"] else (len(r["cols"]) + 1) * r["bsh"])
-        if total > r["tw"] + 64 and re.search(r'<td[^>]*width:\d+%', r["html"]):
-            # (the table box is narrower than the columns laid out in it by more than a pixel: named by the shape of the input)
+        if total > r["tw"] + 3 + len(r["cols"]) and re.search(r'<td[^>]*width:\d+%', r["html"]):
+            # (the table box is narrower than the columns laid out in it, beyond the rounding the clause tolerates: named by the shape of the input)
             return "columns-wider-than-the-table:table-with-a-percentage-cell-width"
     if clause == "cell-narrower-than-its-longest-word" and re.search(r'<td[^>]*width:\d+%', r["html"]):
         return clause + ":table-with-a-percentage-cell-width"
